@@ -44,6 +44,9 @@ def query_table(cfg):
         t["Stargate"] = ("stargate", "stargate::Stargate", "query_stargate")
     if cfg.has("cosmwasm_2_0"):
         t["Grpc"] = ("stargate", "stargate::Stargate", "query_grpc")
+    if cfg.has("cosmwasm_1_3"):
+        # (a query kind of cosmwasm-std since 1.3; the application is built with a distribution module - known finding: no arm)
+        t["Distribution"] = ("distribution", "module::Module", "query")
     return t
 
 
@@ -51,6 +54,8 @@ def sudo_table(cfg):
     t = {"Wasm": ("wasm", "wasm::Wasm", "sudo"), "Bank": ("bank", "module::Module", "sudo")}
     if cfg.has("staking"):
         t["Staking"] = ("staking", "module::Module", "sudo")
+    # (`SudoMsg::Custom` is a variant of the crate's own enum and the custom module has a `sudo` - known finding: no arm)
+    t["Custom"] = ("custom", "module::Module", "sudo")
     return t
 
 
@@ -478,7 +483,9 @@ def msg_lift(ctx, cfg, R):
                     mapped.add(v)
                 else:
                     ctx.fail(R, key, "lift-changes-message:%s" % v, "customize_msg builds CosmosMsg::%s from %s" % (v, [fmt(p)[:60] for p in pays]), fn=f, line=st["line"])
-        routed = routed_exec_variants(cfg) - {"Custom"}  # an Empty custom payload cannot be lifted
+        # (`Custom(Empty {})` is a value a contract written against `Empty` can emit; on a chain whose custom message type is
+        # `Empty` it is an ordinary custom message - known finding: the arm is `unreachable!()`)
+        routed = routed_exec_variants(cfg)
         for v in sorted(routed):
             ctx.ob(R, key, "routed-variant-is-lifted:%s" % v, v in mapped,
                    "CosmosMsg::%s is routed by Router::execute in config %s but customize_msg has no pass-through arm for it "
